@@ -118,6 +118,27 @@ theorem gens_concat {β : Type} (f : Nat → β) (s : State) (ns : List Nat) :
       samples_append f (outDims s.shape n) (outDims s.shape ns.sum)]
     rfl
 
+/-! ### raw requests -/
+
+theorem stepR_ok (s : State) (r : RawOp) (op : Op) (h : r.check = .ok op) :
+    stepR s r = (step s op, none) := by
+  simp only [stepR, h]
+
+theorem stepR_error (s : State) (r : RawOp) (e : PyErr) (h : r.check = .error e) :
+    stepR s r = (s, some e) := by
+  simp only [stepR, h]
+
+theorem runR_eq_run_accepted (s : State) (rs : List RawOp) : runR s rs = run s (accepted rs) := by
+  induction rs generalizing s with
+  | nil => rfl
+  | cons r rs ih =>
+    cases h : r.check with
+    | ok op => simp only [runR, accepted, stepR, h, run, ih]
+    | error e => simp only [runR, accepted, stepR, h, ih]
+
+theorem step_k_le (s : State) (op : Op) : s.k ≤ (step s op).k := by
+  rw [step_k]; exact Nat.le_add_right _ _
+
 /-! ### the Jakes sum over ℝ -/
 
 @[simp] theorem sumList_nil : sumList ([] : List ℝ) = 0 := by simp [sumList]
